@@ -5,6 +5,7 @@ package main
 
 import (
 	"fmt"
+	"os"
 	"go/ast"
 	"go/constant"
 	"go/parser"
@@ -300,6 +301,15 @@ func (c *SpecCtx) deref(x TT) TT {
 }
 
 func (c *SpecCtx) ident(name string) TT {
+	if os.Getenv("GOVC_DEBUG_IDENT") == name {
+		defer func() { fmt.Fprintf(os.Stderr, "ident %s resolved\n", name) }()
+		if v, ok := c.binds[name]; ok {
+			fmt.Fprintf(os.Stderr, "  via binds: %s\n", v.T.S)
+		}
+		if g, ok := c.st.ghosts[name]; ok {
+			fmt.Fprintf(os.Stderr, "  via ghost: %s\n", g.S)
+		}
+	}
 	if s, ok := c.bound[name]; ok {
 		return TT{T: mk(s, "q_"+name)}
 	}
@@ -386,13 +396,6 @@ func (c *SpecCtx) object(obj types.Object) TT {
 func (c *SpecCtx) local(name string) (TT, bool) {
 	fr := c.frame
 	fn := fr.fn
-	for i, p := range fn.Params {
-		if p.Name() == name {
-			v := fr.env[p]
-			_ = i
-			return c.fromValue(v, p.Type()), true
-		}
-	}
 	for i, fv := range fn.FreeVars {
 		if fv.Name() == name && i < len(fr.freeVar) {
 			v := fr.freeVar[i]
@@ -416,6 +419,15 @@ func (c *SpecCtx) local(name string) (TT, bool) {
 			}
 		}
 	}
+	for _, p := range fn.Params {
+		if p.Name() == name {
+			// a parameter that is reassigned in the body lives in phis / debug refs below
+			if v, ok := c.paramCurrent(fr, p); ok {
+				return v, true
+			}
+			return c.fromValue(fr.env[p], p.Type()), true
+		}
+	}
 	// phi at the program point
 	if c.at != nil {
 		for _, in := range c.at.Instrs {
@@ -426,68 +438,104 @@ func (c *SpecCtx) local(name string) (TT, bool) {
 			}
 		}
 	}
-	// debug references
+	// debug references: the closest reference to the variable that dominates the program
+	// point tells its current value (a reaching-definition approximation)
 	var best ssa.Value
 	var bestBlock *ssa.BasicBlock
 	bestIdx := -1
 	for _, b := range fn.Blocks {
+		if c.at != nil && !b.Dominates(c.at) {
+			continue
+		}
 		for idx, in := range b.Instrs {
-			dr, ok := in.(*ssa.DebugRef)
-			if !ok || dr.IsAddr {
-				continue
+			var x ssa.Value
+			if phi, isPhi := in.(*ssa.Phi); isPhi {
+				// a phi named like the variable is a (merging) definition at the top of its block
+				if phi.Comment != name {
+					continue
+				}
+				x = phi
+			} else {
+				dr, ok := in.(*ssa.DebugRef)
+				if !ok || dr.IsAddr {
+					continue
+				}
+				id, ok := dr.Expr.(*ast.Ident)
+				if !ok || id.Name != name {
+					continue
+				}
+				if _, isVar := dr.Object().(*types.Var); !isVar {
+					continue
+				}
+				if c.at != nil && b == c.at && c.atIdx >= 0 && idx >= c.atIdx {
+					continue
+				}
+				x = dr.X
 			}
-			id, ok := dr.Expr.(*ast.Ident)
-			if !ok || id.Name != name {
-				continue
-			}
-			if _, isVar := dr.Object().(*types.Var); !isVar {
-				continue
-			}
-			x := dr.X
 			if _, bound := fr.env[x]; !bound {
 				if _, isConst := x.(*ssa.Const); !isConst {
 					continue
 				}
 			}
-			db := b
-			if inst, ok := x.(ssa.Instruction); ok {
-				db = inst.Block()
-			}
-			if c.at != nil && db != nil {
-				if !(db.Dominates(c.at)) {
-					continue
-				}
-				// a value defined in the same block after the program point is not visible
-				if db == c.at && c.atIdx >= 0 {
-					if inst, ok := x.(ssa.Instruction); ok {
-						if pos := instrIndex(inst); pos >= c.atIdx {
-							if _, isPhi := x.(*ssa.Phi); !isPhi {
-								continue
-							}
-						}
-					}
-				}
-			}
-			better := best == nil
-			if !better && bestBlock != nil && db != nil {
-				if bestBlock != db && bestBlock.Dominates(db) {
+			_, xConst := x.(*ssa.Const)
+			_, bestConst := best.(*ssa.Const)
+			better := best == nil || (bestConst && !xConst)
+			if !better && !(xConst && !bestConst) {
+				if bestBlock != b && bestBlock.Dominates(b) {
 					better = true
-				} else if bestBlock == db {
-					if xi, ok := x.(ssa.Instruction); ok {
-						if instrIndex(xi) > bestIdx {
-							better = true
-						}
-					}
+				} else if bestBlock == b && idx > bestIdx {
+					better = true
 				}
 			}
 			if better {
-				best, bestBlock = x, db
-				bestIdx = -1
-				if xi, ok := x.(ssa.Instruction); ok {
-					bestIdx = instrIndex(xi)
+				best, bestBlock, bestIdx = x, b, idx
+			}
+		}
+	}
+	if _, isConst := best.(*ssa.Const); best == nil || isConst {
+		// fallback: a value the variable holds at some reference anywhere in the function,
+		// whose definition dominates the program point (deepest such definition)
+		var fb ssa.Value
+		var fbBlock *ssa.BasicBlock
+		fbIdx := -1
+		for _, b := range fn.Blocks {
+			for _, in := range b.Instrs {
+				dr, ok := in.(*ssa.DebugRef)
+				if !ok || dr.IsAddr {
+					continue
+				}
+				id, ok := dr.Expr.(*ast.Ident)
+				if !ok || id.Name != name {
+					continue
+				}
+				if _, isVar := dr.Object().(*types.Var); !isVar {
+					continue
+				}
+				xi, ok := dr.X.(ssa.Instruction)
+				if !ok {
+					continue
+				}
+				if _, bound := fr.env[dr.X]; !bound {
+					continue
+				}
+				db := xi.Block()
+				if c.at != nil {
+					if !db.Dominates(c.at) {
+						continue
+					}
+					if db == c.at && c.atIdx >= 0 && instrIndex(xi) >= c.atIdx {
+						if _, isPhi := dr.X.(*ssa.Phi); !isPhi {
+							continue
+						}
+					}
+				}
+				if fb == nil || (fbBlock != db && fbBlock.Dominates(db)) || (fbBlock == db && instrIndex(xi) > fbIdx) {
+					fb, fbBlock, fbIdx = dr.X, db, instrIndex(xi)
 				}
 			}
-			_ = idx
+		}
+		if fb != nil {
+			best = fb
 		}
 	}
 	if best != nil {
@@ -916,4 +964,34 @@ func (w *World) lookupType(name string) types.Type {
 		}
 	}
 	return nil
+}
+
+// paramCurrent finds the current value of a reassigned parameter at the program point:
+// a phi named like the parameter in a block that dominates the point.
+func (c *SpecCtx) paramCurrent(fr *Frame, p *ssa.Parameter) (TT, bool) {
+	if c.at == nil {
+		return TT{}, false
+	}
+	var best *ssa.Phi
+	for _, b := range fr.fn.Blocks {
+		if !b.Dominates(c.at) {
+			continue
+		}
+		for _, in := range b.Instrs {
+			phi, ok := in.(*ssa.Phi)
+			if !ok || phi.Comment != p.Name() {
+				continue
+			}
+			if _, bound := fr.env[phi]; !bound {
+				continue
+			}
+			if best == nil || best.Block().Dominates(b) {
+				best = phi
+			}
+		}
+	}
+	if best == nil {
+		return TT{}, false
+	}
+	return c.fromValue(fr.env[best], best.Type()), true
 }
